@@ -138,6 +138,7 @@ def run_case(acc, c: dict, monitors: List[Callable], nontrivial: Optional[Callab
             acc.evaluations += 1
             acc.add_hits(res.hook_hits)
             pre = state["pre"]
+            stalled = res.outcome == "hang" or res.forced
             if acc.selfcheck < SELFCHECK_PER_SHARD:
                 acc.selfcheck += 1
                 res2 = run_one(tuple(c_ for _, _, c_ in res.choices))
@@ -157,6 +158,8 @@ def run_case(acc, c: dict, monitors: List[Callable], nontrivial: Optional[Callab
             if nexec == 1:
                 acc.sample({"case": c, "choices": [list(x) for x in res.choices], "outcome": res.outcome,
                             "trace": [e for e in res.trace][:40]})
+            if stalled:
+                acc.stall(res)
     finally:
         cfg.RUN_DEBUG_NODES = False
     s, t = sc.counts()
